@@ -416,7 +416,9 @@ class FactoryFunctorPool(FunctorPool):
             self.verbose = verbose
 
         def run(self) -> None:
-            while not self.stop_event.is_set():
+            while True:
+                # stop() always posts a None token; it must be consumed by the thread it was meant for, otherwise it
+                # stays in the queue and ends the replace thread of the next call before it replaced anybody
                 replace_id = self.pool._replace_queue.get()
                 if replace_id is None:
                     break
